@@ -14,6 +14,7 @@
   * `ignored_is_passthrough`                                 verdict ignore ⇒ single relay layer, no hooks, byte streams exact
   * `ignored_is_passthrough_to_the_end`, `half_close_propagation`   … through the closing events, for admissible histories
   * `not_excluded_is_intercepted`, `passthrough_only_if_excluded`
+  * `verdict_uses_options_in_force`, `verdict_history_independent`   one addon instance, options changed between connections
   * `tls_ignore_passthrough`                                 ClientTLSLayer `ignore_connection` branch
 -/
 import MitmVerif.Lemmas.C19
@@ -491,6 +492,39 @@ theorem passthrough_only_if_excluded {Pat : Type} (E : Env Pat) (c : NCfg Pat) (
       rcases hig with hig | hig
       · have := h3 _ hig; simp [LK.intercepts] at this
       · have := h3 _ hig; simp [LK.intercepts] at this
+
+/-! ## histories on one addon instance -/
+
+private theorem hrun_state {Pat : Type} (E : Env Pat) (a : Addon Pat) (pre : List (HStep Pat)) :
+    (hrun E a pre).1 = optionsAfter a pre := by
+  induction pre generalizing a with
+  | nil => rfl
+  | cons st rest ih => cases st <;> simp [hrun, hstep, optionsAfter, ih]
+
+private theorem hrun_append {Pat : Type} (E : Env Pat) (a : Addon Pat) (pre post : List (HStep Pat)) :
+    (hrun E a (pre ++ post)).2 = (hrun E a pre).2 ++ (hrun E (optionsAfter a pre) post).2 := by
+  induction pre generalizing a with
+  | nil => rfl
+  | cons st rest ih => cases st <;> simp [hrun, hstep, optionsAfter, ih]
+
+/-- **verdict_uses_options_in_force** — on ONE addon instance, after ANY history of option updates (ignore_hosts and/or
+    allow_hosts set, changed, unset, in any order) and earlier connections (to the same or to other destinations), the
+    decision for a connection is the decision under the options in force at that moment: nothing else is carried over. -/
+theorem verdict_uses_options_in_force {Pat : Type} (E : Env Pat) (a : Addon Pat) (pre : List (HStep Pat))
+    (c : NCfg Pat) (dc ds : Bytes) :
+    (hrun E a (pre ++ [.conn c dc ds])).2 = (hrun E a pre).2 ++
+      [(ignoreConnection E ((optionsAfter a pre).cfg c).toCfg dc ds, nextLayer E ((optionsAfter a pre).cfg c) dc ds)] := by
+  rw [hrun_append]
+  simp [hrun, hstep]
+
+/-- hence two histories that end with the same options give the same decision for the same connection -/
+theorem verdict_history_independent {Pat : Type} (E : Env Pat) (a b : Addon Pat) (h1 h2 : List (HStep Pat))
+    (c : NCfg Pat) (dc ds : Bytes)
+    (hi : (optionsAfter a h1).ignorePats = (optionsAfter b h2).ignorePats)
+    (ha : (optionsAfter a h1).allowPats = (optionsAfter b h2).allowPats) :
+    (hrun E a (h1 ++ [.conn c dc ds])).2.getLast? = (hrun E b (h2 ++ [.conn c dc ds])).2.getLast? := by
+  rw [verdict_uses_options_in_force, verdict_uses_options_in_force]
+  simp [Addon.cfg, hi, ha]
 
 /-! ## ClientTLSLayer, `tls_clienthello` answering `ignore_connection` -/
 
